@@ -892,7 +892,7 @@ def plan(chk, rng):
     A = [(0, CA)]
     AB = [(0, CA), (1, CB)]
     q = tier == "quick"
-    lim = 200 if q else 400
+    lim = 200 if q else 250
     out = [
         # 2 threads x 1 op, same file: every schedule
         ("get||upd", (BIG, A, [[g(0)], [u(0, U1)]]), None, None),
@@ -902,10 +902,10 @@ def plan(chk, rng):
         ("get||get", (BIG, A, [[g(0)], [g(0)]]), None, None),
         ("get||upd-new", (BIG, [], [[g(0)], [u(0, U1)]]), None, None),
         # two files that do not fit together (eviction): complete within the preemption bound
-        ("getA||getB-evict", (6, AB, [[g(0)], [g(1)]]), 2 if q else 3, 1000 if q else 3000),
-        ("updA||getB-evict", (6, AB, [[u(0, U1)], [g(1)]]), 2 if q else 3, 700 if q else 3000),
-        ("getB;getA||updA-evict", (6, AB, [[g(1), g(0)], [u(0, U1)]]), 2, 1500 if q else 3000),
-        ("get;updEmpty||getB-evict", (6, AB, [[g(0), u(0, [])], [g(1)]]), 1 if q else 2, 400 if q else 3000),
+        ("getA||getB-evict", (6, AB, [[g(0)], [g(1)]]), 2 if q else 3, 1000 if q else 800),
+        ("updA||getB-evict", (6, AB, [[u(0, U1)], [g(1)]]), 2 if q else 3, 700 if q else 600),
+        ("getB;getA||updA-evict", (6, AB, [[g(1), g(0)], [u(0, U1)]]), 2, 1500),
+        ("get;updEmpty||getB-evict", (6, AB, [[g(0), u(0, [])], [g(1)]]), 1 if q else 2, 400 if q else 600),
         # two files, both fit
         ("getA||updB", (BIG, AB, [[g(0)], [u(1, U1)]]), 2 if q else 3, lim),
         # 2 threads x 2 ops
@@ -931,11 +931,11 @@ def plan(chk, rng):
     else:
         for c in uni[0]:
             cfg = cfg_from_model(c[0])
-            out.append(("U21:" + cfg_name(cfg), cfg, None, 25))
+            out.append(("U21:" + cfg_name(cfg), cfg, None, 15))
         for nm, U in (("U22", uni[1]), ("U31", uni[2]), ("U2112", uni[3]), ("U31e", uni[4])):
             for c in U:
                 cfg = cfg_from_model(c[0])
-                out.append(("%s:%s" % (nm, cfg_name(cfg)), cfg, 2, 25))
+                out.append(("%s:%s" % (nm, cfg_name(cfg)), cfg, 2, 15))
         # beyond the theorems: 2x2 on two files, 3 threads x 2 ops (sampled, preemption bound 2)
         out += [
             ("updA;getB||updB;getA", (BIG, AB, [[u(0, U1), g(1)], [u(1, U2), g(0)]]), 2, 300),
@@ -1011,7 +1011,7 @@ def df_explore(chk, work, rng, deadline):
     # `with flock` (known finding C18-K4 while df_cache.py keeps that shape)
     plans.append(("df:upd||rawupd", (BIG, on_disk, [[("dfupd", 0, a)], [("rawupd", 0, {5: 50})]])))
     retry_outside = "df_retry_outside_flock : bool := true" in chk.generated_text
-    lim = 60 if chk.tier == "quick" else 600
+    lim = 60 if chk.tier == "quick" else 150
     k4_witness = [0, 0, 0, 0, 0, 1, 2, 2, 2, 2, 0, 1, 1, 0, 3, 3, 3, 3, 0, 0, 1]
     bad = []
     for name, cfg in plans:
@@ -1201,7 +1201,7 @@ def _run(chk, rng, proof, work):
         judge(name, cfg, runs, "enumerated")
         chk.counters.setdefault("per_config", {})[name] = [len(runs), "all" if (complete and bound is None) else ("bound %s" % bound if complete else "sampled %s" % limit)]
 
-    for rep in df_explore(chk, work, rng, deadline)[:2]:
+    for rep in df_explore(chk, work, rng, max(deadline, time.time() + (40 if tier == "quick" else 120)))[:2]:
         chk.violation("PandasDataFrameCache.update: " + "; ".join(rep["fails"]) + " (config %s)" % rep["config"], rep)
     for fid, reps in known_hits.items():
         chk.finding(fid, "a client unloaded an in-flight cache entry: %s" % "; ".join(reps[0]["fails"]), reps[0])
